@@ -25,6 +25,8 @@ def run(ctx):
     ctx.rule("R3", "ACK-frame capacity accounting: the extra bytes charged when the Ack Range Count grows are charged exactly at the "
                    "varint boundaries (count 63 -> +1, 16383 -> +2, 2^30-1 -> +4): table extracted from the guards of "
                    "range_count_size_increment")
+    ctx.rule("R4", "received stays received: no function of the receive journal writes State::Empty (= never received) over a record; "
+                   "records leave only by rotation from the front — otherwise decode_pn accepts a duplicate of a packet still inside the window")
     ctx.rule("R2", "at-most-once acceptance: decode_pn returns Ok only when the slot is vacant or Empty; on_rcvd_pn is "
                    "fed only PlainPacket::pn() of an authenticated packet")
     # ---------------------------------------------------------------- R1
@@ -172,3 +174,21 @@ def run(ctx):
         ctx.ob("R3", "%s|increment table equals the varint boundaries" % b.short, table == want and not bad, b.where(),
                "extracted {range count: extra bytes} = %s, expected %s%s — charging the extra byte one range late lets an ACK frame "
                "with 64 (16384) ranges exceed the space it was given" % (table, want, ("; " + "; ".join(bad)) if bad else ""))
+
+    # ---------------------------------------------------------------- R4
+    writers = []
+    nb = 0
+    for b in prog.bodies.values():
+        if not b.short.startswith("qrecovery::journal::rcvd::") and "qrecovery::journal::rcvd::State" not in b.short:
+            continue
+        if b.kind in ("const", "promoted"):
+            continue
+        nb += 1
+        for (i, j, rv, line) in agg_sites(b, r"journal::rcvd::State$", "Empty"):
+            writers.append((b, line))
+    ctx.floor("R4", "bodies of the receive journal module", nb, 15)
+    allowed = [w for w in writers if re.search(r"core::default::Default>::default$|core::clone::Clone>::clone$", w[0].short)]
+    others = [w for w in writers if w not in allowed]
+    ctx.ob("R4", "qrecovery::journal::rcvd|State::Empty is only the default of a fresh slot", not others, "qrecovery/src/journal/rcvd.rs",
+           "functions constructing State::Empty: %s (allowed: the derived Default used when the deque is extended over a gap, and the derived Clone)"
+           % sorted(set("%s:L%s" % (w[0].short, w[1]) for w in writers)))
